@@ -186,7 +186,9 @@ static std::unique_ptr<PDU> build_mirror_pdu(const Req& r) {
 }
 
 // ------------------------------------------------------------------ matched fields (by protocol layout, not by libtins)
-struct Field { std::string name; int off, len; bool skip; uint8_t mask; };   // mask: bits of the byte that belong to the field (first byte only)
+struct Field { std::string name; int off, len; bool exempt; uint8_t mask; std::string cls; };
+// mask: bits of the byte that belong to the field (first byte only); exempt: the reference table below says replies may carry ANY
+// value in this field for this class of request address (then every perturbation must be ACCEPTED); cls: that class
 
 struct Layout { int link_off, vlan_off, net_off, l4_off; };
 static Layout layout(const Req& r) {
@@ -195,38 +197,95 @@ static Layout layout(const Req& r) {
     l.l4_off = l.net_off + net_hdr(r);
     return l;
 }
-static bool mac_unicast(const Mac& m) { return (m[0] & 1) == 0; }
-static bool ip4_unicast(const IPv4Address& a) { uint32_t h = Endian::be_to_host((uint32_t)a); return (h >> 28) != 0xe && h != 0xffffffffu; }
-static bool ip6_unicast(const IPv6Address& a) { return *a.begin() != 0xff; }
+// ---- address classes and the REFERENCE TABLE of exemptions --------------------------------------------------------------------
+// A request to a group address is answered by hosts the sender cannot name, so a matcher may have to accept any reply source for
+// such a destination.  Which classes are exempt is part of the documented behaviour of libtins (comments in the matchers + the RFC
+// semantics they cite); it is written down here independently, and every class is judged in BOTH directions: a non-exempt class
+// must reject every foreign reply source, an exempt class must accept every one.  A class that silently joins or leaves the
+// exempt set is reported either way.
+static std::string mac_class(const Mac& m) {
+    if (m == Mac("ff:ff:ff:ff:ff:ff")) return "broadcast";
+    return (m[0] & 1) ? "multicast" : "unicast";                       // IEEE 802 I/G bit
+}
+static std::string ip4_class(const IPv4Address& a) {
+    uint32_t h = Endian::be_to_host((uint32_t)a);
+    if (h == 0xffffffffu) return "limited-broadcast";                 // RFC 919
+    if (h == 0) return "zero";                                         // RFC 1122 3.2.1.3 "this host"
+    if ((h >> 28) == 0xe) return "multicast";                          // RFC 5771 224.0.0.0/4
+    if ((h >> 28) == 0xf) return "reserved-240";                       // RFC 1112 section 4, 240.0.0.0/4
+    if ((h >> 24) == 127) return "loopback";
+    return "unicast";                                                  // incl. x.y.z.255: a directed broadcast is not recognisable without a netmask
+}
+static std::string ip6_class(const IPv6Address& a) {
+    const uint8_t* b = a.begin();
+    if (b[0] == 0xff) return b[1] == 0x02 ? "mcast-ff02" : "mcast-other";   // RFC 4291 2.7: flags 0, scope 2 (link-local, well-known) vs. the rest of ff00::/8
+    bool zero = true; for (int i = 0; i < 15; ++i) if (b[i]) zero = false;
+    if (zero && b[15] == 0) return "unspecified";
+    if (zero && b[15] == 1) return "loopback";
+    if (b[0] == 0xfe && (b[1] & 0xc0) == 0x80) return "link-local";
+    return "unicast";
+}
+struct ExemptRow { const char* layer; const char* dst_class; bool reply_src_any; const char* why; };
+static const ExemptRow EXEMPT_TABLE[] = {
+    // EthernetII::matches_response: "|| !dst_addr().is_unicast()" -- a frame sent to a group address is answered from the
+    // responder's own station address
+    {"link", "unicast", false, "the reply comes from the station the request was sent to"},
+    {"link", "broadcast", true, "IEEE 802 group address: any station may answer"},
+    {"link", "multicast", true, "IEEE 802 group address (I/G bit set, incl. 01:00:5e.., 33:33.., 01:80:c2..): any station may answer"},
+    // IP::matches_response: "checks for broadcast addr": header_.daddr == reply source || dst_addr().is_broadcast()
+    {"ip", "unicast", false, "the reply comes from the address the request was sent to (x.y.z.255 included: no netmask is known)"},
+    {"ip", "limited-broadcast", true, "RFC 919 255.255.255.255: every host on the link answers from its own address"},
+    {"ip", "multicast", false, "libtins exempts only is_broadcast(); 224.0.0.0/4 is compared like unicast"},
+    {"ip", "reserved-240", false, "240.0.0.0/4 below 255.255.255.255 is not broadcast"},
+    {"ip", "zero", false, "0.0.0.0 as destination is compared literally"},
+    {"ip", "loopback", false, "127.0.0.0/8 is compared literally"},
+    // IPv6::matches_response: "checks for ff02 multicast": dst_addr() == reply source || dst starts with ff 02
+    {"ip6", "unicast", false, "the reply comes from the address the request was sent to"},
+    {"ip6", "link-local", false, "fe80::/10 is unicast"},
+    {"ip6", "loopback", false, "::1 is unicast"},
+    {"ip6", "unspecified", false, ":: is compared literally"},
+    {"ip6", "mcast-ff02", true, "ff02::/16 (all-nodes, all-routers, solicited-node ff02::1:ffxx:xxxx): neighbours answer from their own address"},
+    {"ip6", "mcast-other", false, "only ff02::/16 is exempt: ff01::, ff05::, ff0e::, ff12::, ff00:: are compared like unicast"},
+};
+static bool ref_reply_src_any(const std::string& layer, const std::string& cls) {
+    for (auto& r : EXEMPT_TABLE) if (layer == r.layer && cls == r.dst_class) return r.reply_src_any;
+    return false;
+}
+// IP::matches_response second clause, "(dst_addr().is_broadcast() && header_.saddr == 0)": a host without an address (BOOTP/DHCP,
+// RFC 951 / RFC 2131 4.1) broadcasts from 0.0.0.0; the answer is addressed to the offered address or to broadcast, so for exactly
+// that combination the reply DESTINATION is not determined either.
+static bool ref_ip4_reply_dst_any(const IPv4Address& src, const IPv4Address& dst) {
+    return ip4_class(src) == "zero" && ip4_class(dst) == "limited-broadcast";
+}
 
 static std::vector<Field> matched_fields(const Req& r) {
     std::vector<Field> f;
     Layout l = layout(r);
     if (r.link != LINK_NONE) {
-        f.push_back(Field{"link.reply-dst", 0, 6, false, 0xff});
-        // a reply to a broadcast/multicast request comes from an address the mirror relation does not determine
-        f.push_back(Field{"link.reply-src", 6, 6, !mac_unicast(r.dmac), 0xff});
+        f.push_back(Field{"link.reply-dst", 0, 6, false, 0xff, "unicast"});
+        f.push_back(Field{"link.reply-src", 6, 6, ref_reply_src_any("link", mac_class(r.dmac)), 0xff, mac_class(r.dmac)});
     }
-    if (r.link == LINK_DOT1Q) f.push_back(Field{"vlan.id", 14, 2, false, 0x0f});
+    if (r.link == LINK_DOT1Q) f.push_back(Field{"vlan.id", 14, 2, false, 0x0f, "unicast"});
     if (r.net == 4) {
-        f.push_back(Field{"ip.reply-src", l.net_off + 12, 4, !ip4_unicast(r.dip4), 0xff});
-        f.push_back(Field{"ip.reply-dst", l.net_off + 16, 4, false, 0xff});
+        f.push_back(Field{"ip.reply-src", l.net_off + 12, 4, ref_reply_src_any("ip", ip4_class(r.dip4)), 0xff, ip4_class(r.dip4)});
+        bool dst_any = ref_ip4_reply_dst_any(r.sip4, r.dip4);
+        f.push_back(Field{"ip.reply-dst", l.net_off + 16, 4, dst_any, 0xff, dst_any ? "zero-source-to-limited-broadcast" : "unicast"});
     } else {
-        f.push_back(Field{"ip6.reply-src", l.net_off + 8, 16, !ip6_unicast(r.dip6), 0xff});
-        f.push_back(Field{"ip6.reply-dst", l.net_off + 24, 16, false, 0xff});
+        f.push_back(Field{"ip6.reply-src", l.net_off + 8, 16, ref_reply_src_any("ip6", ip6_class(r.dip6)), 0xff, ip6_class(r.dip6)});
+        f.push_back(Field{"ip6.reply-dst", l.net_off + 24, 16, false, 0xff, "unicast"});
     }
     std::string p = r.l4 == L4_TCP ? "tcp" : "udp";
     switch (r.l4) {
         case L4_TCP: case L4_UDP: case L4_DNS:
-            f.push_back(Field{p + ".reply-sport", l.l4_off, 2, false, 0xff});
-            f.push_back(Field{p + ".reply-dport", l.l4_off + 2, 2, false, 0xff});
-            if (r.l4 == L4_DNS) f.push_back(Field{"dns.id", l.l4_off + 8, 2, false, 0xff});
+            f.push_back(Field{p + ".reply-sport", l.l4_off, 2, false, 0xff, "unicast"});
+            f.push_back(Field{p + ".reply-dport", l.l4_off + 2, 2, false, 0xff, "unicast"});
+            if (r.l4 == L4_DNS) f.push_back(Field{"dns.id", l.l4_off + 8, 2, false, 0xff, "unicast"});
             break;
         default: {
             std::string q = r.l4 == L4_ICMP6_ECHO ? "icmp6" : "icmp";
-            f.push_back(Field{q + ".reply-type", l.l4_off, 1, false, 0xff});
-            f.push_back(Field{q + ".id", l.l4_off + 4, 2, false, 0xff});
-            f.push_back(Field{q + ".sequence", l.l4_off + 6, 2, false, 0xff});
+            f.push_back(Field{q + ".reply-type", l.l4_off, 1, false, 0xff, "unicast"});
+            f.push_back(Field{q + ".id", l.l4_off + 4, 2, false, 0xff, "unicast"});
+            f.push_back(Field{q + ".sequence", l.l4_off + 6, 2, false, 0xff, "unicast"});
         }
     }
     return f;
@@ -401,7 +460,11 @@ static int run_request(const Req& r, const std::map<std::string, std::string>* o
         for (size_t fi = 0; fi < fields.size(); ++fi) {
             const Field& f = fields[fi];
             if (only && f.name != only->at("field")) continue;
-            if (f.skip) { R.count("negative_fields_skipped_nonunicast_destination"); continue; }
+            if (f.exempt) R.count("exempt_fields_judged");
+            if (f.name.find("reply-src") != std::string::npos || f.cls != "unicast") R.dist("distinct_address_class_cases", fnv(st + "|" + f.name + "|" + f.cls));
+            if (f.name.find("reply-src") != std::string::npos) R.dist("distinct_request_destination_classes", fnv(f.name + "|" + f.cls));
+            const Outcome expected = f.exempt ? O_TRUE : O_FALSE;
+            const std::string clsfx = f.cls == "unicast" ? "" : ":to-" + f.cls;
             R.dist("distinct_nontrivial", fnv(st + "+" + str(net_hdr(r)) + "|" + f.name + "|" + hex(&m[f.off], f.len)));
             R.dist("distinct_perturbed_fields", fnv(st + "+" + str(net_hdr(r)) + "|" + f.name));
             for (int k = 0; k < f.len; ++k) {
@@ -415,11 +478,12 @@ static int run_request(const Req& r, const std::map<std::string, std::string>* o
                     b.p[off] = (uint8_t)v;
                     Outcome o = call_match(*req, b.p, (uint32_t)b.n, st);
                     R.count("evaluations"); R.count("negative_evaluations");
-                    if (o == O_FALSE) continue;
-                    if (o == O_TRUE) {
+                    if (f.exempt) R.count("exempt_evaluations");
+                    if (o == expected) continue;
+                    if (o == O_TRUE || o == O_FALSE) {
                         // a defect is hit millions of times: once its signature is recorded with a case string that this one
                         // cannot beat in length, only count it (building the strings costs more than the matcher call)
-                        std::string sig = "match:stranger-accepted:" + f.name;
+                        std::string sig = (o == O_TRUE ? "match:stranger-accepted:" : "match:exempt-class-reply-rejected:") + f.name + clsfx;
                         if (f.name == "icmp.reply-type" && (v == 3 || v == 11 || v == 12)) sig += ":icmp-error-type";
                         std::map<std::string, Violation>::iterator it = R.violations.find(sig);
                         if (!verbose && it != R.violations.end() && it->second.kase.size() <= rs.size() + f.name.size() + 38) {
@@ -431,11 +495,18 @@ static int run_request(const Req& r, const std::map<std::string, std::string>* o
                     std::string kase = "part=func " + rs + " test=neg field=" + f.name + " off=" + str(off) + " val=" + str(v);
                     if (o == O_BAD) report(g_bad, "reply perturbed at " + str(off), kase);
                     else if (o == O_TRUE) {
-                        std::string sig = "match:stranger-accepted:" + f.name;
+                        std::string sig = "match:stranger-accepted:" + f.name + clsfx;
                         // an ICMP reply type turned into an ICMP error is decided by the IPv4 layer, not the ICMP layer
                         if (f.name == "icmp.reply-type" && (v == 3 || v == 11 || v == 12)) sig += ":icmp-error-type";
                         report(sig, "reply differing from the mirror in byte " + str(off) + " (" + f.name + ": " + str((int)orig) + " -> " + str(v) +
-                               ") is accepted; stack " + st + " request=" + hex(req_wire) + " reply=" + hex(b.p, b.n), kase);
+                               ") is accepted; request address class: " + f.cls + " (reference table: not exempt); stack " + st + " request=" +
+                               hex(req_wire) + " reply=" + hex(b.p, b.n), kase);
+                    } else if (o == O_FALSE && f.exempt) {
+                        report("match:exempt-class-reply-rejected:" + f.name + clsfx, "request address class " + f.cls + " is exempt in the reference table (a reply may carry "
+                               "any value in " + f.name + "), but the reply with byte " + str(off) + " " + str((int)orig) + " -> " + str(v) + " is rejected; stack " + st +
+                               " request=" + hex(req_wire) + " reply=" + hex(b.p, b.n), kase);
+                    } else if (o == O_TINS_EXC) {
+                        report("exc:libtins-exception-on-reply:" + f.name, "matches_response threw on a perturbed reply", kase);
                     }
                 }
                 b.p[off] = orig;
@@ -455,7 +526,7 @@ static int run_request(const Req& r, const std::map<std::string, std::string>* o
                    "part=func " + rs + " test=all");
     }
     // ---- ICMP errors from strangers about a different packet (IPv4 only)
-    if (r.net == 4 && (!only || want == "icmperr")) {
+    if (r.net == 4 && !ref_ip4_reply_dst_any(r.sip4, r.dip4) && (!only || want == "icmperr")) {
         static const int types[] = {3, 11, 12};
         static const int codes[] = {0, 1, 3, 13};
         for (int ti = 0; ti < 3; ++ti) for (int ci = 0; ci < 4; ++ci) for (int xv = 0; xv < 2; ++xv) for (int yv = 0; yv < 2; ++yv) for (int qv = 0; qv < 3; ++qv) {
@@ -512,6 +583,7 @@ static const Groups& groups() {
                            Mac("fe:ff:ff:ff:ff:ff"), Mac("00:11:22:33:44:55")};
     std::vector<Mac> md = ms;
     md.push_back(Mac("ff:ff:ff:ff:ff:ff")); md.push_back(Mac("01:00:5e:00:00:01")); md.push_back(Mac("33:33:00:00:00:01"));
+    md.push_back(Mac("01:80:c2:00:00:00")); md.push_back(Mac("03:00:00:00:00:01"));      // other group addresses (I/G bit), fe:ff.. above is unicast
     pair_list(ms, md, {{0, 1}, {1, 0}, {0, 2}, {0, 3}, {0, 6}, {0, 7}, {4, 6}, {0, 0}, {5, 4}, {2, 8}}, g.link);
     g.r_link = 10;
     int vids[] = {0x064, 0, 1, 0x0ff, 0x100, 0xfff, 0xf00, 0x555};
@@ -522,12 +594,22 @@ static const Groups& groups() {
     d4.push_back("255.255.255.255"); d4.push_back("224.0.0.1"); d4.push_back("239.255.255.255");
     pair_list(s4, d4, {{0, 1}, {1, 0}, {0, 2}, {0, 3}, {0, 4}, {0, 8}, {0, 9}, {5, 8}, {0, 0}, {7, 6}, {4, 5}, {0, 10}}, g.net4);
     g.r_net4 = 12;
+    // address-class representatives and their neighbours across each class boundary (appended: full sets only), base source -> d
+    for (const char* d : {"10.0.0.255", "223.255.255.255", "224.0.0.0", "240.0.0.1", "255.255.255.0", "0.0.0.0"})
+        g.net4.push_back(std::make_pair(s4[0], IPv4Address(d)));
+    // a host without an address: 0.0.0.0 -> unicast / limited broadcast / multicast (only under a link layer, see req_valid)
+    for (const char* d : {"10.0.0.2", "255.255.255.255", "224.0.0.1", "255.255.255.254"})
+        g.net4.push_back(std::make_pair(IPv4Address("0.0.0.0"), IPv4Address(d)));
     std::vector<IPv6Address> s6 = {"2001:db8::1", "2001:db8::2", "2001:db8::1:0:0:1", "2001:db9::1", "3001:db8::1", "::1", "fe80::1",
                                    "::ffff:10.0.0.1"};
     std::vector<IPv6Address> d6 = s6;
     d6.push_back("ff02::1"); d6.push_back("ff02::1:ff00:1"); d6.push_back("ff05::2"); d6.push_back("ff0e::1");
     pair_list(s6, d6, {{0, 1}, {1, 0}, {0, 2}, {0, 3}, {0, 4}, {0, 8}, {0, 10}, {6, 9}, {0, 0}, {5, 5}, {7, 6}, {0, 11}}, g.net6);
     g.r_net6 = 12;
+    for (const char* d : {"ff01::1", "ff03::1", "ff12::1", "ff00::", "ff02::", "ff02:ffff:ffff:ffff:ffff:ffff:ffff:ffff", "ff0f::1", "fe02::", "feff::1", "::", "fec0::1"})
+        g.net6.push_back(std::make_pair(s6[0], IPv6Address(d)));
+    for (const char* d : {"2001:db8::2", "ff02::1", "ff02::1:ff00:1", "ff05::2"})      // unspecified source (DAD, RFC 4862)
+        g.net6.push_back(std::make_pair(IPv6Address("::"), IPv6Address(d)));
     int ports[] = {0, 1, 53, 0x100, 0xffff};
     int ids[] = {0, 1, 0x00ff, 0xff00, 0xffff};
     // base first: (sport 0x100 -> dport 53), (id 0x00ff, seq 0xff00)
@@ -590,6 +672,12 @@ static bool stack_valid(int net, int l4) {
 // Enumerate every request deviating from the base request (index 0 everywhere) in the groups of `subset`:
 //   |subset| <= 1: full value sets;  |subset| == 2: reduced sets (quick) / full sets (thorough);
 //   |subset| == 3: thorough only, reduced sets.
+// a root IP with source 0.0.0.0 asks the host's routing table when serialized (request: source, mirror: the request's destination)
+static bool req_valid(const Req& r) {
+    if (r.net == 4 && r.link == LINK_NONE && ((uint32_t)r.sip4 == 0 || (uint32_t)r.dip4 == 0)) return false;
+    return true;
+}
+
 template <class F>
 static void for_each_request(bool thorough, F f) {
     for (int link = 0; link < 3; ++link) for (int net = 4; net <= 6; net += 2) for (int l4 = 0; l4 < L4_COUNT; ++l4) {
@@ -606,7 +694,7 @@ static void for_each_request(bool thorough, F f) {
             size_t ix[7] = {0, 0, 0, 0, 0, 0, 0};
             for (int g = 0; g < 7; ++g) if (sub >> g & 1) ix[g] = 1;
             for (;;) {
-                f(make_req(link, net, l4, ix));
+                { Req rq = make_req(link, net, l4, ix); if (req_valid(rq)) f(rq); }
                 int g = 0;
                 for (; g < 7; ++g) {
                     if (!(sub >> g & 1)) continue;
@@ -670,9 +758,11 @@ static uint64_t probe_eval(const Req& r, const std::string& kase, const std::str
                 R.count("evaluations"); R.count("history_evaluations");
                 h = fnv(&o, sizeof o, h);
                 if (o == O_BAD) report(g_bad, "reply perturbed at " + str(off));
-                else if (o == O_TRUE && !f.skip)     // fields without an expectation still enter the verdict vector
-                    report("match:stranger-accepted:" + f.name, "reply differing from the mirror in byte " + str(off) + " (" + f.name + ": " +
-                           str((int)orig) + " -> " + str((int)vals[vi]) + ") is accepted");
+                else if (o == O_TRUE && !f.exempt)
+                    report("match:stranger-accepted:" + f.name + (f.cls == "unicast" ? "" : ":to-" + f.cls), "reply differing from the mirror in byte " + str(off) +
+                           " (" + f.name + ": " + str((int)orig) + " -> " + str((int)vals[vi]) + ") is accepted");
+                else if (o == O_FALSE && f.exempt)
+                    report("match:exempt-class-reply-rejected:" + f.name + ":to-" + f.cls, "reply with byte " + str(off) + " changed is rejected although the class is exempt");
             }
             b.p[off] = orig;
         }
@@ -1180,6 +1270,11 @@ static void run_job(int job) {
         R.sample("{\"request\":" + jstr(req_str(r)) + ",\"request_wire\":" + jstr(hex(build_request(r)->serialize())) + ",\"mirror_wire\":" +
                  jstr(hex(build_mirror_pdu(r)->serialize())) + ",\"negatives\":\"each byte of link.reply-dst, link.reply-src, vlan.id, ip.reply-src, "
                  "ip.reply-dst, udp.reply-sport, udp.reply-dport, dns.id x 255 other values\"}");
+        std::string tab = "[";
+        for (auto& row : EXEMPT_TABLE) tab += std::string(tab.size() > 1 ? "," : "") + "{\"layer\":" + jstr(row.layer) + ",\"request_destination_class\":" + jstr(row.dst_class) +
+                                              ",\"any_reply_source_accepted\":" + (row.reply_src_any ? "true" : "false") + ",\"why\":" + jstr(row.why) + "}";
+        tab += ",{\"layer\":\"ip\",\"request\":\"source 0.0.0.0 to 255.255.255.255\",\"any_reply_destination_accepted\":true,\"why\":\"BOOTP/DHCP client without an address\"}]";
+        R.info["address_class_reference_table"] = tab;
         R.sample("{\"safety_case\":\"part=safe obj=RadioTap len=1 kind=zeros\",\"meaning\":\"RadioTap().matches_response(malloc(1)={00}, 1)\"}");
     }
 }
